@@ -110,6 +110,9 @@ pub struct Case {
     pub header_name_lower: bool,
     pub ignore_case: bool,
     pub with_variables: bool,
+    /// the redirect target references no marker (filter values still do)
+    #[serde(default)]
+    pub static_target: bool,
 }
 
 pub struct Template {
@@ -206,7 +209,7 @@ pub fn build(case: &Case) -> (Rule, Request, RouterConfig, bool, Vec<(String, St
     let mut rule = json!({
         "id": "m", "source": {"scheme": null, "host": t.host, "ips": null, "path": t.path, "query": null, "headers": headers_src, "methods": null,
             "exclude_methods": null, "response_status_codes": null, "exclude_response_status_codes": null, "sampling": null},
-        "target": TARGET, "status_code": 302, "rank": 1, "markers": markers,
+        "target": if case.static_target { "/static-target" } else { TARGET }, "status_code": 302, "rank": 1, "markers": markers,
         "body_filters": [
             {"action": "append_text", "content": TEXT_VALUE, "id": null, "target_hash": null},
             {"action": "append_child", "value": HTML_VALUE, "inner_value": null, "element_tree": ["html", "body"], "css_selector": null, "id": null, "target_hash": null}
@@ -294,7 +297,7 @@ pub fn check_case(case: &Case) -> Vec<(String, String)> {
         "{}{}{}{}",
         t.name,
         if case.header_name_lower { ":header-name-lowercase" } else { "" },
-        if case.with_variables { ":variables" } else { "" },
+        if case.with_variables { ":variables" } else if case.static_target { ":static-target" } else { "" },
         if trs.is_empty() { String::new() } else { format!(":tr={}", trs.join(">")) }
     );
     let want_location = substitute(&target_template, &vars);
@@ -420,8 +423,8 @@ pub fn cases(tier: Tier) -> Vec<Case> {
                             continue;
                         }
                         for ignore_case in [false, true] {
-                            for with_variables in [false, true] {
-                                if (ignore_case || with_variables) && !chain.is_empty() {
+                            for (with_variables, static_target) in [(false, false), (true, false), (false, true)] {
+                                if (ignore_case || with_variables || static_target) && !chain.is_empty() {
                                     continue;
                                 }
                                 let slots: Vec<Slot> = (0..n)
@@ -433,7 +436,7 @@ pub fn cases(tier: Tier) -> Vec<Case> {
                                         transformers: if i == n - 1 { chain.clone() } else { vec![] },
                                     })
                                     .collect();
-                                out.push(Case { template: ti, slots, header_name_lower, ignore_case, with_variables });
+                                out.push(Case { template: ti, slots, header_name_lower, ignore_case, with_variables, static_target });
                             }
                         }
                     }
